@@ -233,6 +233,24 @@ def judge_binary(lay, c, rc, out, err):
     return fos, problems, nul, len(lines)
 
 
+def gz_multiblock(lays_ref, c):
+    """class of the recorded finding: a .gz container whose uncompressed size exceeds the block size
+    (the gz reader streams: earlier blocks are dropped and cannot be read again, but FixedStructReader
+    makes several passes and then reads entries in time order)"""
+    return c["container"] == "gz" and len(c["recs"]) * lays_ref[c["layout"]]["size"] > c["bs_bin"]
+
+
+def lastlog32_read_as_utmp40(c):
+    """class of the recorded detection finding: a NetBSD amd64 lastlog file (32-byte entries) whose
+    size is also a multiple of 40 (NetBSD amd64 utmp) and in which one of the first five non-null
+    entries has a time value whose four low-order bytes are all printable ASCII: read as utmp the
+    time bytes count as a plausible ut_line and that layout outscores the name bonus"""
+    if c["layout"] != "Fs_Netbsd_x8664_Lastlog" or (len(c["recs"]) * 32) % 40 != 0:
+        return False
+    first = [t for t, nk in c["recs"] if nk != "zero"][:5]
+    return any(all(0x20 <= b <= 0x7E for b in int(t[0]).to_bytes(8, "little", signed=True)[:4]) for t in first if t[0] > 0)
+
+
 def case_public(c):
     return dict(layout=c["layout"], ordering=c["ordering"], window=c["window"],
                 recs=[[list(t), nk] for t, nk in c["recs"]], lo=list(c["lo"]) if c["lo"] else None,
@@ -290,8 +308,8 @@ def evaluate(ctx, lays_ref, cases, do_b=True):
                 else:
                     impl = None
                 if impl is None:
-                    if c["layout"] in UNREACHABLE:
-                        continue       # covered by the failing-input search (class of the recorded finding)
+                    if c["layout"] in UNREACHABLE or (tok[0] == "OK" and tok[1] != c["layout"] and lastlog32_read_as_utmp40(c)):
+                        continue       # covered by the failing-input search (class of a recorded finding)
                     ctx.obligation_broken("correspondence", "FixedStructReader (in-process) vs Model.Records.records_out_K2",
                                           json.dumps(dict(case=case_public(c), harness_line=o[:400])))
                     stats["model_disagreements"] += 1
@@ -340,6 +358,10 @@ def evaluate(ctx, lays_ref, cases, do_b=True):
         if wrong:
             stats["spec_failures"] += 1
             cls = ["layout_not_offered_by_filesz_to_types"] if c["layout"] in UNREACHABLE else []
+            if gz_multiblock(lays_ref, c):
+                cls.append("gz_container_and_file_larger_than_one_block")
+            if lastlog32_read_as_utmp40(c):
+                cls.append("netbsd_lastlog_size_multiple_of_40_with_printable_time_bytes")
             ctx.failure(case_public(c), dict(record_offsets_in_order=exp, note="Coq spec_records; python rendering shown"),
                         dict(record_offsets_in_order=fos, problems=problems[:5], stderr=errtxt), cls)
         elif nul:
